@@ -85,6 +85,15 @@ impl Client {
         writer.get_ref().set_write_timeout(d)
     }
 
+    /// Number of calls currently registered as awaiting a response.
+    #[cfg(feature = "verif-hooks")]
+    pub fn verif_pending_len(&self) -> usize {
+        match self.inner.pending.lock() {
+            Ok(guard) => guard.len(),
+            Err(poisoned) => poisoned.into_inner().len(),
+        }
+    }
+
     fn next_request_id(&self) -> u64 {
         self.inner.next_id.fetch_add(1, Ordering::Relaxed)
     }
@@ -579,6 +588,8 @@ impl Client {
                 .map_err(|_| poisoned_lock_error("client pending map"))?;
             pending.insert(id, sender);
         }
+        #[cfg(feature = "verif-hooks")]
+        crate::verif_hooks::probe("client.registered", id);
 
         if let Err(err) = self.write_request(&msg) {
             self.remove_pending(id);
@@ -599,6 +610,8 @@ impl Client {
             Some(duration) => match receiver.recv_timeout(duration) {
                 Ok(value) => value,
                 Err(mpsc::RecvTimeoutError::Timeout) => {
+                    #[cfg(feature = "verif-hooks")]
+                    crate::verif_hooks::probe("client.timeout.before_remove", id);
                     self.remove_pending(id);
                     Err(request_timeout_error(id, duration))
                 }
@@ -623,8 +636,12 @@ impl Client {
             .writer
             .lock()
             .map_err(|_| poisoned_lock_error("client writer"))?;
+        #[cfg(feature = "verif-hooks")]
+        crate::verif_hooks::probe("client.write.locked", msg.header.id);
         write_message(&mut *writer, msg)?;
         writer.flush()?;
+        #[cfg(feature = "verif-hooks")]
+        crate::verif_hooks::probe("client.written", msg.header.id);
         Ok(())
     }
 
@@ -753,6 +770,8 @@ fn spawn_response_loop(mut reader: BufReader<TcpStream>, inner: std::sync::Weak<
                 }
             };
 
+            #[cfg(feature = "verif-hooks")]
+            crate::verif_hooks::probe("client.reader.received", response.header.id);
             let dispatch = {
                 let Some(inner_ref) = inner.upgrade() else {
                     break;
@@ -773,6 +792,8 @@ fn spawn_response_loop(mut reader: BufReader<TcpStream>, inner: std::sync::Weak<
 
             match dispatch {
                 PendingDispatch::Matched { sender, response } => {
+                    #[cfg(feature = "verif-hooks")]
+                    crate::verif_hooks::probe("client.reader.before_deliver", response.header.id);
                     let _ = sender.send(Ok(response));
                 }
                 PendingDispatch::Unrecognized { got_id } => {
